@@ -96,7 +96,7 @@ func c05Diff(before, after map[string]int) []string {
 }
 
 var c05Endings = []string{"deletion", "release", "read-timeout", "heartbeat-failure", "report-context-not-found"}
-var c05Prefixes = []string{"plain", "rejected-est-after-alloc", "rejected-mod-halfway", "mod-then-end", "idle-then-end", "idle-keep-tunnel", "update-pdr-refresh", "update-pdr-new-teid", "remove-pdr", "remove-dl-rules", "two-dl-alloc", "datapath-write-failure", "two-sessions"}
+var c05Prefixes = []string{"plain", "rejected-est-after-alloc", "rejected-mod-halfway", "mod-then-end", "idle-then-end", "idle-keep-tunnel", "update-session-qer", "peer-re-setup", "update-pdr-refresh", "update-pdr-new-teid", "remove-pdr", "remove-dl-rules", "two-dl-alloc", "datapath-write-failure", "two-sessions"}
 
 func TestVerif_C05(t *testing.T) {
 	res := vNewResult("C05")
@@ -287,6 +287,24 @@ func c05Scenario(res *vResult, rng *rand.Rand, up4 bool, ending, prefix string, 
 			res.note("prefix idle-then-end: the Update FAR to BUFF|NOCP was not accepted")
 		}
 	}
+	if prefix == "update-session-qer" {
+		// both QERs are referenced by every PDR; the one with the larger MBR (QER 2) is the session-wide one. The control
+		// plane changes its rates (an AMBR change) in a modification that carries nothing else; the session then ends
+		seq++
+		q := vQERSpec{ID: 2, HasQFI: true, QFI: 9, HasMBR: true, MBRUL: 7000, MBRDL: 7000}
+		if m := c01Request(p, p.modify(vModSpec{Seq: seq, SEID: ups[0], UpQER: []vQERSpec{q}}), seq); m == nil || vDecodeReply(m).Cause != ie.CauseRequestAccepted {
+			res.note("prefix update-session-qer: the Update QER was not accepted")
+		}
+	}
+	if prefix == "peer-re-setup" {
+		// the control plane sets the association up again on the same socket with a newer Recovery Time Stamp (it has
+		// restarted, or thinks so). Whatever the agent does with the sessions at that point, nothing may be lost for good.
+		seq++
+		p.startTS = p.startTS.Add(time.Duration(1+rng.Intn(5)) * time.Hour)
+		if c01Request(p, p.assocSetup(seq), seq) == nil {
+			res.note("prefix peer-re-setup: the repeated Association Setup Request was not answered")
+		}
+	}
 	if prefix == "idle-keep-tunnel" && ending != "report-context-not-found" {
 		// as above, but the Update FAR repeats the tunnel as it is (base station and TEID): the rule buffers and keeps
 		// its tunnel; the session then ends in that state
@@ -366,6 +384,9 @@ func c05Scenario(res *vResult, rng *rand.Rand, up4 bool, ending, prefix string, 
 			m := c01Request(p, p.deletion(seq, u), seq)
 			if up4 && prefix == "remove-dl-rules" {
 				continue // judged as a whole below (recorded finding)
+			}
+			if prefix == "peer-re-setup" {
+				continue // an agent may end the sessions of a restarted peer itself; only reclamation is judged
 			}
 			if m == nil || vDecodeReply(m).Cause != ie.CauseRequestAccepted {
 				res.violate("C05.R0", "deletion-rejected "+prefix, fmt.Sprintf("Session Deletion Request for the live session %#x was rejected (prefix %s)", u, prefix), desc)
